@@ -95,9 +95,9 @@ def _main(args, seed):
     if tot.failures:
         # smallest failing case, re-confirmed outside Hypothesis
         cands = sorted(tot.failures, key=lambda cm: (common.case_size(cm[0]), common.canon(cm[0])))
-        # (three attempts per candidate: cases that involve a real pipe or free-running threads
+        # (five attempts per candidate: cases that involve a real pipe or free-running threads
         # depend on timing under a broken tree, never on the unchanged one)
-        for case, msg in [cm for cm in cands[:6] for _ in range(3)]:
+        for case, msg in [cm for cm in cands[:6] for _ in range(5)]:
             rec = common.Rec()
             try:
                 common.checked_anywhere(mod, case, rec)
